@@ -190,7 +190,6 @@ class Resolver:
         self.templates = templates
         self.data = data
         self.info = Info()
-        self.loaded: set[str] = set()
         self.depth = 0
         self.active: set[tuple[int, int]] = set()
 
